@@ -213,9 +213,10 @@ structure St where
 clause + feature): the first of the clause's candidate features that the case exhibits -/
 def featureOf (clause : String) (feats : List String) : String :=
   let cands :=
-    if clause = "parse-ok" then ["path-descends-through-scoped-object", "if-empty-body", "deferred-nested-block", "name-caret"]
-    else if clause = "named-object-path" then ["name-caret", "path-descends-through-scoped-object"]
-    else if clause = "call-arity" then ["call-arg-expression", "deferred-nested-block", "name-caret"]
+    if clause = "parse-ok" then ["path-descends-through-scoped-object", "if-empty-body", "deferred-nested-block", "name-caret",
+      "scope-search-shadowed-later"]
+    else if clause = "named-object-path" then ["name-caret", "path-descends-through-scoped-object", "scope-search-shadowed-later"]
+    else if clause = "call-arity" then ["call-arg-expression", "deferred-nested-block", "name-caret", "scope-search-shadowed-later"]
     else []
   (cands.find? feats.contains).getD "-"
 
